@@ -76,7 +76,9 @@ type verifC04Case struct {
 	p      lnwallet.VerifE1Params
 	noAmt  bool
 	snaps  [2]map[uint64]*verifC04Snap
-	failed bool
+	failed bool // structural failure: stop the case
+	seen   map[string]bool
+	nViol  int
 
 	// statistics of the case
 	nStates, nHtlcStates, nSecond int
@@ -90,9 +92,31 @@ func verifC04TxHex(tx *wire.MsgTx) string {
 	return hex.EncodeToString(b.Bytes())
 }
 
+// verifC04Emitted bounds the number of emitted violations per fingerprint in
+// one process, so that one recurring fingerprint cannot exhaust the runtime's
+// per-process violation cap and hide a different one.
+var verifC04Emitted = map[string]int{}
+
+// viol records a violation. The same (oracle, key) is reported once per case;
+// the case goes on with the remaining, independent evaluations.
 func (c *verifC04Case) viol(oracle, key, detail string) {
-	c.failed = true
-	c.e.Viol(oracle, key, detail)
+	c.nViol++
+	fp := oracle + "|" + key
+	if c.seen[fp] {
+		return
+	}
+	c.seen[fp] = true
+	verifC04Emitted[fp]++
+	if verifC04Emitted[fp] > 3 {
+		c.vc.Count("violations_not_emitted_same_fingerprint", 1)
+		return
+	}
+	tr := c.e.Trace()
+	if len(tr) > 250 {
+		tr = tr[len(tr)-250:]
+	}
+	c.vc.Violation(oracle, key, detail, map[string]any{"params": c.p,
+		"noAmt": c.noAmt, "trace": tr})
 }
 
 // verifC04Obfuscator derives the state hint obfuscator exactly as
@@ -256,6 +280,11 @@ func (c *verifC04Case) execJustice(ctx string, jt *justiceTxCtx,
 	counter string) bool {
 
 	tx := jt.justiceTx
+	if len(jt.inputs) != len(tx.TxIn) {
+		c.viol("justice_witness_valid", "input-count/"+c.p.TypeName,
+			fmt.Sprintf("%s: %d inputs requested, %d in tx", ctx, len(jt.inputs), len(tx.TxIn)))
+		return false
+	}
 	fetcher := txscript.NewMultiPrevOutFetcher(nil)
 	for i, in := range tx.TxIn {
 		out, ok := prev[in.PreviousOutPoint]
@@ -270,26 +299,22 @@ func (c *verifC04Case) execJustice(ctx string, jt *justiceTxCtx,
 		}
 		fetcher.AddPrevOut(in.PreviousOutPoint, out)
 	}
-	if len(jt.inputs) != len(tx.TxIn) {
-		c.viol("justice_witness_valid", "input-count/"+c.p.TypeName,
-			fmt.Sprintf("%s: %d inputs requested, %d in tx", ctx, len(jt.inputs), len(tx.TxIn)))
-		return false
-	}
+	ok := true
 	for i, in := range tx.TxIn {
 		out := prev[in.PreviousOutPoint]
 		c.vc.Count(counter, 1)
 		err := lnwallet.VerifExec(out.PkScript, out.Value, tx, i, fetcher)
 		if err != nil {
+			ok = false
 			wt := jt.inputs[i].WitnessType()
 			c.viol("justice_witness_valid", fmt.Sprintf("%v/%s", wt, c.p.TypeName),
 				fmt.Sprintf("%s: script interpreter rejects justice input %d (%v, outpoint %v, "+
 					"value %d, sequence %d, locktime %d): %v\nprev pkScript=%x\nrevoked=%s\njustice=%s",
 					ctx, i, wt, in.PreviousOutPoint, out.Value, in.Sequence, tx.LockTime, err,
 					out.PkScript, verifC04TxHex(revokedTx), verifC04TxHex(tx)))
-			return false
 		}
 	}
-	return true
+	return ok
 }
 
 // storeRoundTrip persists the retribution in a real RetributionStore on the
@@ -485,6 +510,7 @@ func (c *verifC04Case) justiceAll(ctx string, victim int, db *channeldb.DB,
 			nCommit++
 		}
 	}
+	ok := true
 	variants := []struct {
 		name string
 		jt   *justiceTxCtx
@@ -500,16 +526,16 @@ func (c *verifC04Case) justiceAll(ctx string, victim int, db *channeldb.DB,
 				c.viol("justice_build", v.name+"-missing/"+c.p.TypeName,
 					fmt.Sprintf("%s: variant %s was not built although %d inputs belong to it",
 						ctx, v.name, v.want))
-				return false
+				ok = false
 			}
 			continue
 		}
 		c.vc.Count("justice_txs", 1)
 		if !c.execJustice(ctx+" variant="+v.name, v.jt, prev, revokedTx, "oracle_justice_inputs") {
-			return false
+			ok = false
 		}
 	}
-	return true
+	return ok
 }
 
 // negativeControl: the pipeline of oracle 4 with the revocation secret of a
@@ -523,7 +549,6 @@ func (c *verifC04Case) negativeControl(victim int, st *channeldb.OpenChannel,
 	}
 	wrong, _ := btcec.PrivKeyFromBytes(sec[:])
 	cp := *br
-	cp.LocalOutputSignDesc = nil
 	if br.RemoteOutputSignDesc != nil {
 		sd := *br.RemoteOutputSignDesc
 		sd.DoubleTweak = wrong
@@ -545,6 +570,10 @@ func (c *verifC04Case) negativeControl(victim int, st *channeldb.OpenChannel,
 		fetcher.AddPrevOut(wire.OutPoint{Hash: txid, Index: uint32(i)}, o)
 	}
 	for i := range ret.breachedOutputs {
+		// only the inputs that are signed with the revocation key.
+		if ret.breachedOutputs[i].signDesc.DoubleTweak == nil {
+			continue
+		}
 		// one input per transaction so that each is judged on its own.
 		jt, err := brar.createSweepTx(&ret.breachedOutputs[i])
 		if err != nil || jt == nil {
@@ -689,20 +718,21 @@ func (c *verifC04Case) secondLevel(ctx string, victim int, db *channeldb.DB,
 	if txs.spendHTLCs != nil {
 		all = append(all, txs.spendHTLCs)
 	}
+	ok := true
 	for _, jt := range all {
 		if !c.execJustice(ctx+" after-second-level", jt, prev, revokedTx, "oracle_justice_inputs") {
-			return false
+			ok = false
 		}
 	}
 	for _, jt := range txs.spendSecondLevelHTLCs {
 		if !c.execJustice(ctx+" second-level-sweep", jt, prev, revokedTx,
 			"oracle_second_level_inputs") {
 
-			return false
+			ok = false
 		}
 	}
 	c.nSecond += len(adv)
-	return true
+	return ok
 }
 
 // breachChecks runs oracles 1-5 with party `victim` as the victim.
@@ -744,7 +774,7 @@ func (c *verifC04Case) breachChecks(victim int) {
 			c.viol("state_recognised", "state-hint/"+c.p.TypeName,
 				fmt.Sprintf("%s: state hint of the revoked tx decodes to %d\nrevoked=%s", base, got,
 					verifC04TxHex(revokedTx)))
-			return
+			continue
 		}
 
 		viaStore := c.r.Chance(1, 3)
@@ -777,12 +807,13 @@ func (c *verifC04Case) breachChecks(victim int) {
 				c.viol("retribution_build", fmt.Sprintf("spendTx=%v/%s", withTx, c.p.TypeName),
 					fmt.Sprintf("%s: NewBreachRetribution failed: %v\nrevoked=%s", ctx, err,
 						verifC04TxHex(revokedTx)))
-				return
+				continue
 			}
 			if !c.checkRecorded(ctx, st, br, revokedTx) {
-				return
+				continue
 			}
-			if !c.justiceAll(ctx, victim, fv.DB(), st, br, revokedTx, viaStore) {
+			c.justiceAll(ctx, victim, fv.DB(), st, br, revokedTx, viaStore)
+			if c.failed {
 				return
 			}
 			if withTx {
@@ -817,7 +848,8 @@ func (c *verifC04Case) breachChecks(victim int) {
 			if err == nil {
 				before := c.nSecond
 				ctx := fmt.Sprintf("%s second-level store=%v", base, viaStore)
-				if !c.secondLevel(ctx, victim, fv.DB(), st, br2, revokedTx, snap, viaStore) {
+				c.secondLevel(ctx, victim, fv.DB(), st, br2, revokedTx, snap, viaStore)
+				if c.failed {
 					return
 				}
 				if c.nSecond > before {
@@ -856,7 +888,7 @@ func verifC04RunCase(t *testing.T, vc *lnwallet.VerifCtx, i int) {
 	// the C01/C03 exactness oracles are not this property's subject.
 	e.SetOracles(map[string]bool{})
 
-	c := &verifC04Case{t: t, vc: vc, r: r, e: e, p: p, noAmt: noAmt}
+	c := &verifC04Case{t: t, vc: vc, r: r, e: e, p: p, noAmt: noAmt, seen: map[string]bool{}}
 	c.snaps[0] = map[uint64]*verifC04Snap{}
 	c.snaps[1] = map[uint64]*verifC04Snap{}
 	if noAmt {
@@ -907,6 +939,9 @@ func verifC04RunCase(t *testing.T, vc *lnwallet.VerifCtx, i int) {
 	for victim := 0; victim < 2 && !c.failed; victim++ {
 		c.breachChecks(victim)
 	}
+	if c.nViol > 0 {
+		vc.Count("cases_with_violation", 1)
+	}
 	vc.Count("revoked_states", int64(c.nStates))
 	vc.Count("revoked_states_with_htlc_outputs", int64(c.nHtlcStates))
 	if c.nHtlcStates > 0 {
@@ -916,7 +951,7 @@ func verifC04RunCase(t *testing.T, vc *lnwallet.VerifCtx, i int) {
 		vc.Sample(map[string]any{"case": i, "params": p, "noAmt": noAmt,
 			"reconnects": reconnects, "revoked_states": c.nStates,
 			"revoked_states_with_htlc_outputs": c.nHtlcStates,
-			"second_level_htlcs": c.nSecond, "end": e.EndReason()})
+			"second_level_htlcs":               c.nSecond, "end": e.EndReason()})
 	}
 }
 
